@@ -225,6 +225,11 @@ theorem XClaim.childWakeNextPc {s s1 : State} {pos : CPos} {f : Frame} {rest : L
   · exact h
   · unfold childLoopStartPc; split <;> exact h
 
+theorem XClaim.childLoopStartPc {s : State} {pos : CPos} {f : Frame} {rest : List Frame}
+    {top : Top} (cs : List NoteId) (h : XClaim s (.chd pos (f :: rest) top)) :
+    XClaim s (Note.childLoopStartPc cs f rest top) := by
+  unfold Note.childLoopStartPc; split <;> exact h
+
 theorem XClaim.freeLoopStartPc (s : State) (cs : List NoteId) (n : NoteId) (par : Option NoteId) :
     XClaim s (Note.freeLoopStartPc cs n par) := by
   cases cs <;> simp [Note.freeLoopStartPc, XClaim]
